@@ -6,6 +6,7 @@ CONSTANTS
   QIndirect = FALSE
   QEventIdx = FALSE
   MaxBufs = 2
+  Adversary = FALSE
   WithNotify = FALSE
   Bug = "no_last_fix"
 INVARIANTS
